@@ -156,8 +156,12 @@ def prove_dfs(rep, nmfu, program, prop="C05"):
         FLAG = z3.Bool("flag_REMOVE")
 
         def body2(eng):
-            st = [SObj(nmfu.DFState, {"transitions": HList([])}) for _ in range(4)]
-            dfa = SObj(nmfu.DFA, {"states": HList(list(st)), "starting_state": st[0], "accepting_states": HList([]), "__reach": HList([st[0], st[2]])})
+            # five states: 0 = start, 2 reachable from it; 3 = jump target of a start action (referenced from start() only), 1 reachable only
+            # from 3; 4 reachable from nowhere.  DFA.dfs by contract: every state reachable from the start state and from the extra roots
+            # it is given (reachability among the model's states is the field __succ).
+            st = [SObj(nmfu.DFState, {"transitions": HList([])}) for _ in range(5)]
+            succ = {id(st[0]): [st[2]], id(st[3]): [st[1]]}
+            dfa = SObj(nmfu.DFA, {"states": HList(list(st)), "starting_state": st[0], "accepting_states": HList([]), "__succ": succ})
             O = st[3]
             sa = SObj(nmfu.CallHook, {"name": "s", "__mode": M.MAY_GOTO_TARGET, "__targets": HList([O])})
             me = SObj(nmfu.DfaCompileCtx, {"dfa": dfa, "start_actions": HList([sa])})
@@ -165,8 +169,23 @@ def prove_dfs(rep, nmfu, program, prop="C05"):
             eng.class_store.setdefault(nmfu.ProgramData, {})["_flags"] = HDict(fl)
             v, _ = call_function(eng, "DfaCompileCtx._optimize_remove_inaccessible", [], self_obj=me)
             return dict(st=st, dfa=dfa, ret=v), {}
+
+        def dfs_contract(eng, a, kw):
+            d = a[0]
+            roots = [d.fields["starting_state"]]
+            for extra in list(a[1:]) + list(kw.values()):
+                roots += list(eng.iterate(extra))
+            seen, out = set(), []
+            while roots:
+                q = roots.pop(0)
+                if id(q) in seen:
+                    continue
+                seen.add(id(q))
+                out.append(q)
+                roots += d.fields["__succ"].get(id(q), [])
+            return HList(out)
         cs = dict(DEBUG_CONTRACTS)
-        cs["DFA.dfs"] = lambda eng, a, kw: a[0].fields["__reach"]
+        cs["DFA.dfs"] = dfs_contract
         cs["Action.get_target_override_targets"] = lambda eng, a, kw: a[0].fields["__targets"]
         cs["Action.all_subactions"] = lambda eng, a, kw: HList([a[0]])
         cs["dprint.__call__"] = lambda eng, a, kw: None
@@ -177,8 +196,9 @@ def prove_dfs(rep, nmfu, program, prop="C05"):
             b = r.value
             now = _items(b["dfa"].fields["states"])
             on = not feasible(r.pc + [z3.Not(FLAG)])
-            want = [b["st"][0], b["st"][2], b["st"][3]] if on else list(b["st"])
-            record("remove.exactly-the-unreached", _same(now, want), f"states after the pass: {len(now)} kept, expected {len(want)} (flag {'on' if on else 'off'}); the start actions' targets count as reached", {"flag": on})
+            want = [b["st"][k] for k in (0, 1, 2, 3)] if on else list(b["st"])
+            record("remove.exactly-the-unreached", _same(now, want), f"states after the pass: {[b['st'].index(x) for x in now]} kept, expected {[b['st'].index(x) for x in want]} (flag {'on' if on else 'off'}); "
+                   "state 3 is the jump target of a start action, state 1 is reachable only from it, state 4 from nowhere", {"flag": on})
     finally:
         Engine.mutable_sets = old_ms
     n = 0
